@@ -31,6 +31,7 @@ import (
 
 	apicommon "github.com/enfein/mieru/v3/apis/common"
 	"github.com/enfein/mieru/v3/apis/model"
+	mlog "github.com/enfein/mieru/v3/pkg/log"
 	"github.com/enfein/mieru/v3/pkg/protocol"
 	"github.com/enfein/mieru/v3/pkg/socks5"
 	"github.com/enfein/mieru/v3/pkg/stderror"
@@ -469,6 +470,34 @@ func startServerWithVictim(tr string, rng *vh.Rng) (*rig.Rig, *victim, error) {
 	return rg, v, nil
 }
 
+// debugProbe: diagnosis aid. C10_DEBUG_PROBES=<transport>:<i>,<i>,... turns mieru's trace log on (file
+// <out>/debug.log) for these probe indices of the server scenario and off for all others.
+func debugProbe(r *vh.Run, pi int, tr string) {
+	spec := os.Getenv("C10_DEBUG_PROBES")
+	if spec == "" || !strings.HasPrefix(spec, tr+":") {
+		return
+	}
+	on := false
+	for _, f := range strings.Split(strings.TrimPrefix(spec, tr+":"), ",") {
+		if f == strconv.Itoa(pi) {
+			on = true
+		}
+	}
+	if on {
+		if debugFile == nil {
+			debugFile, _ = os.Create(filepath.Join(r.Out, "debug.log"))
+		}
+		fmt.Fprintf(debugFile, "==== probe %d virtual time %v\n", pi, time.Now().UTC().Format(time.RFC3339Nano))
+		mlog.SetOutput(debugFile)
+		mlog.SetLevel("TRACE")
+	} else if debugFile != nil {
+		mlog.SetOutput(io.Discard)
+		mlog.SetLevel("FATAL")
+	}
+}
+
+var debugFile *os.File
+
 // ---------------------------------------------------------------- scenario: hostile client against a real server
 
 func childServer(r *vh.Run, o *childOut, tr string, witnessOnly bool) {
@@ -519,6 +548,7 @@ func childServer(r *vh.Run, o *childOut, tr string, witnessOnly bool) {
 	}
 	nextSid := uint32(1000)
 	for pi, p := range probes {
+		debugProbe(r, pi, tr)
 		bob := mkCred("bob", bobPass, 2) // keys rotate every 2 minutes of (virtual) time
 		nextSid += 10
 		own, unknown := nextSid, nextSid+1
@@ -652,6 +682,18 @@ func childServer(r *vh.Run, o *childOut, tr string, witnessOnly bool) {
 			if !udp && (h.Garbage || h.Body == bTag) {
 				wait = 65 * time.Second // drainAfterError keeps reading for up to 60 s before the connection is closed
 			}
+			if udp {
+				// Synchronise with the server's event loop: one goroutine reads the server socket in FIFO order,
+				// so once alice's echo (sent after the hostile datagram) has come back, the hostile datagram has
+				// been dispatched. Needed because the loop can stall for about 1 s (cleanSessions -> RemoveSession of
+				// an idle session: the session is deleted from sessionMap first, its graceful close can then never
+				// transmit the close request and polls the full 1000 ms on the event loop goroutine).
+				time.Sleep(5 * time.Millisecond)
+				if err := v.roundTrip(rng); err != nil {
+					o.put(rec{T: "fail", Sig: "victim-transfer-broken", What: "alice's echo transfer failed right after a hostile segment: " + err.Error(),
+						Case: map[string]interface{}{"transport": tr, "probe": p.name, "case": cl}})
+				}
+			}
 			time.Sleep(wait)
 			after := snapshot(rg.Server)
 			if !udp && len(after) == len(before) {
@@ -681,6 +723,8 @@ func childServer(r *vh.Run, o *childOut, tr string, witnessOnly bool) {
 				// 2-minute key slot changes between probes): do what a real client does, send it again
 				bob = mkCred("bob", bobPass, 2)
 				send(h, spoof)
+				time.Sleep(5 * time.Millisecond)
+				v.roundTrip(rng)
 				time.Sleep(wait)
 				after = snapshot(rg.Server)
 				obs = classify(before, after, skey(h.Sid, src), ulClosed, false)
@@ -727,10 +771,11 @@ func childServer(r *vh.Run, o *childOut, tr string, witnessOnly bool) {
 		victimCheck("after probe "+p.name, map[string]interface{}{"transport": tr, "probe": p.name, "segs": fmt.Sprint(p.segs)})
 		// cleanup so that idle sessions do not accumulate
 		if udp {
-			if ownOpen {
-				send(defSeg(4, own), false)
-				time.Sleep(20 * time.Millisecond)
-			}
+			// close whatever this probe opened (own and "unknown" ids): a session left behind idles out after 60 s
+			// and its removal stalls the server's event loop for a second (see above)
+			send(defSeg(4, own), false)
+			send(defSeg(4, unknown), false)
+			time.Sleep(20 * time.Millisecond)
 			sock.Close()
 		} else {
 			conn.Close()
@@ -941,6 +986,7 @@ func childClient(r *vh.Run, o *childOut, tr string) {
 // ---------------------------------------------------------------- parent: run a scenario in a child
 
 var panicSigs = []struct{ needle, sig string }{
+	{"SIGQUIT", "child-hang"},
 	{"is different from", "panic-session-user-differs"},
 	{"cipher block user name is not set", "panic-session-user-empty"},
 	{"user policy name", "panic-session-policy-differs"},
@@ -958,15 +1004,37 @@ var panicSigs = []struct{ needle, sig string }{
 }
 
 func runChild(r *vh.Run, name string, limit time.Duration) {
+	// A child that hangs is killed by coreutils timeout (REAL time: this process runs under faketime, its own
+	// timers only advance when every goroutine is parked, so they cannot bound a child). SIGQUIT makes the Go
+	// runtime print the goroutine dump. A hang is retried once: one that does not repeat is recorded as a note.
+	for attempt := 0; attempt < 2; attempt++ {
+		hung := runChildOnce(r, name, limit, attempt == 1)
+		if !hung {
+			return
+		}
+		if r.Rep.Notes == nil {
+			r.Rep.Notes = map[string]string{}
+		}
+		r.Rep.Notes["hang-"+name] = fmt.Sprintf("child %s did not finish within %v of real time on attempt %d", name, limit, attempt+1)
+	}
+}
+
+func runChildOnce(r *vh.Run, name string, limit time.Duration, final bool) (hung bool) {
 	dir := filepath.Join(r.Out, "child_"+name)
+	os.RemoveAll(dir)
 	os.MkdirAll(dir, 0o755)
-	ctx, cancel := context.WithTimeout(context.Background(), limit)
-	defer cancel()
-	cmd := exec.CommandContext(ctx, os.Args[0], "-child", name, "-seed", fmt.Sprint(r.Seed), "-tier", r.Tier, "-out", dir)
+	cmd := exec.Command("timeout", "-s", "QUIT", "-k", "10", fmt.Sprint(int(limit.Seconds())),
+		os.Args[0], "-child", name, "-seed", fmt.Sprint(r.Seed), "-tier", r.Tier, "-out", dir)
 	var stderr bytes.Buffer
 	cmd.Stderr = &stderr
 	cmd.Stdout = &stderr
 	err := cmd.Run()
+	if strings.Contains(stderr.String(), "SIGQUIT") {
+		os.WriteFile(filepath.Join(dir, "hang-goroutines.txt"), stderr.Bytes(), 0o644)
+		if !final {
+			return true
+		}
+	}
 	done, pending, pendingProbe := false, "", ""
 	if f, e := os.Open(filepath.Join(dir, "child.jsonl")); e == nil {
 		sc := bufio.NewScanner(f)
@@ -1000,9 +1068,6 @@ func runChild(r *vh.Run, name string, limit time.Duration) {
 	if err != nil || !done {
 		txt := stderr.String()
 		sig := "child-exit"
-		if ctx.Err() != nil {
-			sig = "child-hang"
-		}
 		for _, ps := range panicSigs {
 			if strings.Contains(txt, ps.needle) {
 				sig = ps.sig
@@ -1022,6 +1087,7 @@ func runChild(r *vh.Run, name string, limit time.Duration) {
 		r.Fail(sig, fmt.Sprintf("the process hosting the endpoint died in scenario %s (probe %s) (%v)", name, pendingProbe, err),
 			map[string]interface{}{"scenario": name, "probe": pendingProbe, "case": pending, "stderr": txt})
 	}
+	return false
 }
 
 func childMain(r *vh.Run, name string) {
@@ -1322,9 +1388,9 @@ func main() {
 		childMain(r, *childFlag)
 		return
 	}
-	limit := 100 * time.Second
+	limit := 90 * time.Second // real time per child (a child takes 1-5 s in the quick tier, 15-40 s in the thorough tier)
 	if r.Thorough() {
-		limit = 400 * time.Second
+		limit = 300 * time.Second
 	}
 	// corpus first: the cross-user witness (DESIGN.md section 8)
 	runChild(r, "witness-udp", limit)
